@@ -48,8 +48,7 @@ def scans(n, maxitems):
         out.append([["line", a]])
     for a in range(m + 1):
         for b in range(m + 1):
-            if a != b:
-                out.append([["range", a, b]])
+            out.append([["range", a, b]])  # a == b is the degenerate inclusive range {a}
     out.extend(_pluslists(m, maxitems))
     return out
 
